@@ -214,8 +214,8 @@ theorem k_checkNumeric_eq (s : List Nat) :
         unfold Gen.K03w.checkNumeric_body1
         rw [idx_ofNat _ _ h]
         simp only [tryC_ok, cnStep]
-        generalize (runes (bytes s))[i] = c
-        by_cases h1 : c < 48 <;> by_cases h2 : c > 57 <;> simp [h1, h2] <;> (try omega))
+        try (generalize (runes (bytes s))[i] = c
+             by_cases h1 : c < 48 <;> by_cases h2 : c > 57 <;> simp [h1, h2] <;> (try omega)))
       (by rw [tripUp_one]; simp [len]) (by simp)]
   rw [List.drop_zero, List.take_of_length_le (by simp), runes, cn_fold s _ (by simp [bytes])]
   cases allDigits s <;> rfl
